@@ -805,6 +805,11 @@ func Run(c Case) (Result, error) {
 	}
 	if len(c.Names) > 0 {
 		cfg.NameSelector = &kemtypes.NameSelector{MatchNames: c.Names}
+		if len(c.Names)%2 == 0 || len(c.Ops)%2 == 0 {
+			// together with a fieldSelector of the binding's own (true for every object here): each per-name informer
+			// gets the binding's requirements plus its own name
+			cfg.FieldSelector = &kemtypes.FieldSelector{MatchExpressions: []kemtypes.FieldSelectorRequirement{{Field: "metadata.namespace", Operator: "!=", Value: "nowhere"}}}
+		}
 	}
 	switch c.NsMode {
 	case "static":
